@@ -113,9 +113,11 @@ def run_one(pid, tier, replay=None):
     if tier == "thorough":
         for r in st_results:
             print(f"  selftest {r['status']:7s} {r['kind']:9s} {r['mutant']}" + (f" — {r.get('detail','')}" if r["status"] != "ok" else ""))
-    if err:
+    if err and not unlisted:
         print(f"ANALYSIS-ERROR property={pid} {err}")
         return 2
+    if err:
+        print(f"  note: analysis stopped early ({err}); violations found before that point are reported")
     for v in listed:
         print(f"KNOWN-FINDING: property={pid} {v.key} — {known_keys[v.key].get('what', v.message)}")
     if unlisted:
